@@ -7,6 +7,7 @@ current tree and evaluates every property's rules on the result. A rule that ala
   lines   every source line number is shifted (keys and verdicts must not depend on positions)
   blocks  the basic blocks of every body are renumbered by a random permutation that keeps the entry block (rules must reason by
           dominance / reachability, never by block order)
+  locals  the locals beyond the parameters are renumbered by a random permutation (rules must not depend on local indices)
 
 Prints one line per property; exit 0 iff no rule alarms."""
 import argparse
@@ -83,12 +84,51 @@ def do_blocks(facts, rnd):
             del b._vt
 
 
+def do_locals(facts, rnd):
+    """renumber the locals beyond the parameters by a random permutation"""
+    from facts import _each_place
+    for p, b in facts.bodies.items():
+        if not local_crate(p):
+            continue
+        n = len(b.j["locals"])
+        first = b.j["arg_count"] + 1
+        if n - first < 2:
+            continue
+        idx = list(range(first, n))
+        sh = idx[:]
+        rnd.shuffle(sh)
+        new_of = {i: i for i in range(first)}
+        new_of.update({old: new for old, new in zip(idx, sh)})
+        locs = [None] * n
+        for old, d in enumerate(b.j["locals"]):
+            locs[new_of[old]] = d
+        b.j["locals"] = locs
+        seen = set()
+        for pl in _each_place(b.j):
+            if id(pl) in seen:
+                continue
+            seen.add(id(pl))
+            pl[0] = new_of[pl[0]]
+            for e in pl[1]:
+                if isinstance(e, list) and e[0] == "i":
+                    e[1] = new_of[e[1]]
+        for blk in b.j["blocks"]:
+            for st in blk["st"]:
+                if st["k"] in ("dead", "live") and isinstance(st.get("l"), int):
+                    st["l"] = new_of[st["l"]]
+        b.locals = b.j["locals"]
+        b._blocks = None
+        if hasattr(b, "_vt"):
+            del b._vt
+
+
 def main():
     ap = argparse.ArgumentParser()
     ap.add_argument("--mode", default="all")
     ap.add_argument("--seed", type=int, default=int(os.environ.get("VERIF_SEED", "1") or 1))
+    ap.add_argument("--only", help="property id: evaluate only this property's rules")
     a = ap.parse_args()
-    modes = ["rename", "lines", "blocks"] if a.mode == "all" else [a.mode]
+    modes = ["rename", "lines", "blocks", "locals"] if a.mode == "all" else [a.mode]
     bad = 0
     for mode in modes:
         os.environ["VERIF_NO_RENAME"] = "1" if mode == "rename" else ""
@@ -107,8 +147,12 @@ def main():
             do_lines(f)
         elif mode == "blocks":
             do_blocks(f, random.Random(a.seed))
+        elif mode == "locals":
+            do_locals(f, random.Random(a.seed))
         for i in range(1, 21):
             pid = "c%02d" % i
+            if a.only and a.only.lower() != pid:
+                continue
             mod = importlib.import_module(pid)
             try:
                 rules = mod.run(ctx)
